@@ -65,7 +65,7 @@ MaxOf(S) == CHOOSE x \in S : \A y \in S : y <= x
   variables
     leaf \in [Deepest -> Vals],                       \* the tree's evaluations (all trees of the family)
     budget \in (0..MaxBudget) \cup {1000},            \* node budget (1000 = none)
-    running = TRUE, nodes = 0, abortSeen = FALSE, wroteDirty = FALSE,
+    running = TRUE, nodes = 0, abortSeen = FALSE, wroteDirty = FALSE, unsound = FALSE,
     tt = [k \in Nodes |-> None],
     ret = 0,
     bestMove = 0, bestScore = -1000,                  \* 0 / -1000 = none yet
@@ -81,6 +81,11 @@ MaxOf(S) == CHOOSE x \in S : \A y \in S : y <= x
                      ELSE MaxOf({0 - LookVal(k, d - 1) : k \in Kids(n)})
     RootVal(d) == LookVal(1, d)
     TwinsConsistent == \A p \in TwinPairs : (p[1] \in Deepest => leaf[p[1]] = leaf[p[2]])
+    \* the alpha-beta contract of one child search: window (wa, wb), returned r, true value lv
+    Sound(wa, wb, r, lv) == \/ wa >= wb
+                            \/ /\ (r >= wb => lv >= wb) /\ (r <= wa => lv <= wa)
+                               /\ ((wa < r /\ r < wb) => lv = r)
+    Judge(wa, wb, r, k, dd) == UseTT \/ abortSeen \/ Sound(wa, wb, r, LookVal(k, dd))
     Exceeded == nodes >= budget
   }
 
@@ -112,14 +117,14 @@ MaxOf(S) == CHOOSE x \in S : \A y \in S : y <= x
         nodes := nodes + 1;
   lc:   if (pv) {
           call ab(m, 0 - a - 1, 0 - a, dp - 1);
-  r1:     sc := 0 - ret;
+  r1:     sc := 0 - ret; unsound := unsound \/ ~Judge(0 - a - 1, 0 - a, ret, m, dp - 1);
   r1b:    if (a < sc /\ sc < bb) {
             call ab(m, 0 - bb, 0 - a, dp - 1);
-  r2:       sc := 0 - ret;
+  r2:       sc := 0 - ret; unsound := unsound \/ ~Judge(0 - bb, 0 - a, ret, m, dp - 1);
           };
         } else {
           call ab(m, 0 - bb, 0 - a, dp - 1);
-  r3:     sc := 0 - ret;
+  r3:     sc := 0 - ret; unsound := unsound \/ ~Judge(0 - bb, 0 - a, ret, m, dp - 1);
         };
   ck:   if (AbortChecked /\ (~running \/ Exceeded)) {               \* repair: re-test after the child returns
           if (Exceeded) { running := FALSE; };
@@ -146,14 +151,14 @@ MaxOf(S) == CHOOSE x \in S : \A y \in S : y <= x
         nodes := nodes + 1;
         if (rpv) {
           call ab(rm, 0 - ra - 1, 0 - ra, dr - 1);
-  t1:     rsc := 0 - ret;
+  t1:     rsc := 0 - ret; unsound := unsound \/ ~Judge(0 - ra - 1, 0 - ra, ret, rm, dr - 1);
           if (ra < rsc /\ rsc < INF) {
             call ab(rm, -INF, 0 - ra, dr - 1);
-  t2:       rsc := 0 - ret;
+  t2:       rsc := 0 - ret; unsound := unsound \/ ~Judge(-INF, 0 - ra, ret, rm, dr - 1);
           };
         } else {
           call ab(rm, -INF, 0 - ra, dr - 1);
-  t3:     rsc := 0 - ret;
+  t3:     rsc := 0 - ret; unsound := unsound \/ ~Judge(-INF, 0 - ra, ret, rm, dr - 1);
         };
   sk:   if (~running \/ Exceeded) {
           if (Exceeded) { running := FALSE; };
@@ -194,8 +199,8 @@ MaxOf(S) == CHOOSE x \in S : \A y \in S : y <= x
 } *)
 \* BEGIN TRANSLATION
 CONSTANT defaultInitValue
-VARIABLES pc, leaf, budget, running, nodes, abortSeen, wroteDirty, tt, ret, 
-          bestMove, bestScore, done, info, answer, answers, stack
+VARIABLES pc, leaf, budget, running, nodes, abortSeen, wroteDirty, unsound, 
+          tt, ret, bestMove, bestScore, done, info, answer, answers, stack
 
 (* define statement *)
 Eval(n) == IF n \in Deepest THEN leaf[n] ELSE 0
@@ -204,15 +209,20 @@ LookVal(n, d) == IF d = 0 \/ Kids(n) = {} THEN Eval(n)
                  ELSE MaxOf({0 - LookVal(k, d - 1) : k \in Kids(n)})
 RootVal(d) == LookVal(1, d)
 TwinsConsistent == \A p \in TwinPairs : (p[1] \in Deepest => leaf[p[1]] = leaf[p[2]])
+
+Sound(wa, wb, r, lv) == \/ wa >= wb
+                        \/ /\ (r >= wb => lv >= wb) /\ (r <= wa => lv <= wa)
+                           /\ ((wa < r /\ r < wb) => lv = r)
+Judge(wa, wb, r, k, dd) == UseTT \/ abortSeen \/ Sound(wa, wb, r, LookVal(k, dd))
 Exceeded == nodes >= budget
 
 VARIABLES nd, alpha, beta, dp, a, bb, rem, m, sc, pv, bestk, dr, ra, rrem, rm, 
           rsc, rpv, rbest, d
 
-vars == << pc, leaf, budget, running, nodes, abortSeen, wroteDirty, tt, ret, 
-           bestMove, bestScore, done, info, answer, answers, stack, nd, alpha, 
-           beta, dp, a, bb, rem, m, sc, pv, bestk, dr, ra, rrem, rm, rsc, rpv, 
-           rbest, d >>
+vars == << pc, leaf, budget, running, nodes, abortSeen, wroteDirty, unsound, 
+           tt, ret, bestMove, bestScore, done, info, answer, answers, stack, 
+           nd, alpha, beta, dp, a, bb, rem, m, sc, pv, bestk, dr, ra, rrem, 
+           rm, rsc, rpv, rbest, d >>
 
 ProcSet == {"searcher"} \cup {"stopper"}
 
@@ -223,6 +233,7 @@ Init == (* Global variables *)
         /\ nodes = 0
         /\ abortSeen = FALSE
         /\ wroteDirty = FALSE
+        /\ unsound = FALSE
         /\ tt = [k \in Nodes |-> None]
         /\ ret = 0
         /\ bestMove = 0
@@ -282,19 +293,19 @@ e0(self) == /\ pc[self] = "e0"
                        /\ UNCHANGED << running, abortSeen, ret, stack, nd, 
                                        alpha, beta, dp, a, bb, rem, m, sc, pv, 
                                        bestk >>
-            /\ UNCHANGED << leaf, budget, nodes, wroteDirty, tt, bestMove, 
-                            bestScore, done, info, answer, answers, dr, ra, 
-                            rrem, rm, rsc, rpv, rbest, d >>
+            /\ UNCHANGED << leaf, budget, nodes, wroteDirty, unsound, tt, 
+                            bestMove, bestScore, done, info, answer, answers, 
+                            dr, ra, rrem, rm, rsc, rpv, rbest, d >>
 
 e1(self) == /\ pc[self] = "e1"
             /\ a' = [a EXCEPT ![self] = alpha[self]]
             /\ bb' = [bb EXCEPT ![self] = beta[self]]
             /\ pc' = [pc EXCEPT ![self] = "e1a"]
             /\ UNCHANGED << leaf, budget, running, nodes, abortSeen, 
-                            wroteDirty, tt, ret, bestMove, bestScore, done, 
-                            info, answer, answers, stack, nd, alpha, beta, dp, 
-                            rem, m, sc, pv, bestk, dr, ra, rrem, rm, rsc, rpv, 
-                            rbest, d >>
+                            wroteDirty, unsound, tt, ret, bestMove, bestScore, 
+                            done, info, answer, answers, stack, nd, alpha, 
+                            beta, dp, rem, m, sc, pv, bestk, dr, ra, rrem, rm, 
+                            rsc, rpv, rbest, d >>
 
 e1a(self) == /\ pc[self] = "e1a"
              /\ IF UseTT /\ tt[Key(nd[self])].depth >= dp[self]
@@ -325,9 +336,9 @@ e1a(self) == /\ pc[self] = "e1a"
                         /\ UNCHANGED << ret, stack, nd, alpha, beta, dp, a, bb, 
                                         rem, m, sc, pv, bestk >>
              /\ UNCHANGED << leaf, budget, running, nodes, abortSeen, 
-                             wroteDirty, tt, bestMove, bestScore, done, info, 
-                             answer, answers, dr, ra, rrem, rm, rsc, rpv, 
-                             rbest, d >>
+                             wroteDirty, unsound, tt, bestMove, bestScore, 
+                             done, info, answer, answers, dr, ra, rrem, rm, 
+                             rsc, rpv, rbest, d >>
 
 e1b(self) == /\ pc[self] = "e1b"
              /\ IF a[self] >= bb[self]
@@ -349,19 +360,19 @@ e1b(self) == /\ pc[self] = "e1b"
                         /\ UNCHANGED << ret, stack, nd, alpha, beta, dp, a, bb, 
                                         rem, m, sc, pv, bestk >>
              /\ UNCHANGED << leaf, budget, running, nodes, abortSeen, 
-                             wroteDirty, tt, bestMove, bestScore, done, info, 
-                             answer, answers, dr, ra, rrem, rm, rsc, rpv, 
-                             rbest, d >>
+                             wroteDirty, unsound, tt, bestMove, bestScore, 
+                             done, info, answer, answers, dr, ra, rrem, rm, 
+                             rsc, rpv, rbest, d >>
 
 e2(self) == /\ pc[self] = "e2"
             /\ IF dp[self] = 0 \/ Kids(nd[self]) = {}
                   THEN /\ pc' = [pc EXCEPT ![self] = "q0"]
                   ELSE /\ pc' = [pc EXCEPT ![self] = "e3"]
             /\ UNCHANGED << leaf, budget, running, nodes, abortSeen, 
-                            wroteDirty, tt, ret, bestMove, bestScore, done, 
-                            info, answer, answers, stack, nd, alpha, beta, dp, 
-                            a, bb, rem, m, sc, pv, bestk, dr, ra, rrem, rm, 
-                            rsc, rpv, rbest, d >>
+                            wroteDirty, unsound, tt, ret, bestMove, bestScore, 
+                            done, info, answer, answers, stack, nd, alpha, 
+                            beta, dp, a, bb, rem, m, sc, pv, bestk, dr, ra, 
+                            rrem, rm, rsc, rpv, rbest, d >>
 
 q0(self) == /\ pc[self] = "q0"
             /\ IF ~running \/ Exceeded
@@ -388,9 +399,9 @@ q0(self) == /\ pc[self] = "q0"
                        /\ UNCHANGED << running, abortSeen, ret, stack, nd, 
                                        alpha, beta, dp, a, bb, rem, m, sc, pv, 
                                        bestk >>
-            /\ UNCHANGED << leaf, budget, nodes, wroteDirty, tt, bestMove, 
-                            bestScore, done, info, answer, answers, dr, ra, 
-                            rrem, rm, rsc, rpv, rbest, d >>
+            /\ UNCHANGED << leaf, budget, nodes, wroteDirty, unsound, tt, 
+                            bestMove, bestScore, done, info, answer, answers, 
+                            dr, ra, rrem, rm, rsc, rpv, rbest, d >>
 
 q1(self) == /\ pc[self] = "q1"
             /\ ret' = Clamp(Eval(nd[self]), a[self], bb[self])
@@ -408,19 +419,19 @@ q1(self) == /\ pc[self] = "q1"
             /\ dp' = [dp EXCEPT ![self] = Head(stack[self]).dp]
             /\ stack' = [stack EXCEPT ![self] = Tail(stack[self])]
             /\ UNCHANGED << leaf, budget, running, nodes, abortSeen, 
-                            wroteDirty, tt, bestMove, bestScore, done, info, 
-                            answer, answers, dr, ra, rrem, rm, rsc, rpv, rbest, 
-                            d >>
+                            wroteDirty, unsound, tt, bestMove, bestScore, done, 
+                            info, answer, answers, dr, ra, rrem, rm, rsc, rpv, 
+                            rbest, d >>
 
 e3(self) == /\ pc[self] = "e3"
             /\ rem' = [rem EXCEPT ![self] = Kids(nd[self])]
             /\ bestk' = [bestk EXCEPT ![self] = CHOOSE k \in Kids(nd[self]) : TRUE]
             /\ pc' = [pc EXCEPT ![self] = "lp"]
             /\ UNCHANGED << leaf, budget, running, nodes, abortSeen, 
-                            wroteDirty, tt, ret, bestMove, bestScore, done, 
-                            info, answer, answers, stack, nd, alpha, beta, dp, 
-                            a, bb, m, sc, pv, dr, ra, rrem, rm, rsc, rpv, 
-                            rbest, d >>
+                            wroteDirty, unsound, tt, ret, bestMove, bestScore, 
+                            done, info, answer, answers, stack, nd, alpha, 
+                            beta, dp, a, bb, m, sc, pv, dr, ra, rrem, rm, rsc, 
+                            rpv, rbest, d >>
 
 lp(self) == /\ pc[self] = "lp"
             /\ IF rem[self] # {}
@@ -431,10 +442,11 @@ lp(self) == /\ pc[self] = "lp"
                        /\ pc' = [pc EXCEPT ![self] = "lc"]
                   ELSE /\ pc' = [pc EXCEPT ![self] = "st"]
                        /\ UNCHANGED << nodes, rem, m >>
-            /\ UNCHANGED << leaf, budget, running, abortSeen, wroteDirty, tt, 
-                            ret, bestMove, bestScore, done, info, answer, 
-                            answers, stack, nd, alpha, beta, dp, a, bb, sc, pv, 
-                            bestk, dr, ra, rrem, rm, rsc, rpv, rbest, d >>
+            /\ UNCHANGED << leaf, budget, running, abortSeen, wroteDirty, 
+                            unsound, tt, ret, bestMove, bestScore, done, info, 
+                            answer, answers, stack, nd, alpha, beta, dp, a, bb, 
+                            sc, pv, bestk, dr, ra, rrem, rm, rsc, rpv, rbest, 
+                            d >>
 
 lc(self) == /\ pc[self] = "lc"
             /\ IF pv[self]
@@ -491,12 +503,13 @@ lc(self) == /\ pc[self] = "lc"
                        /\ bestk' = [bestk EXCEPT ![self] = 0]
                        /\ pc' = [pc EXCEPT ![self] = "e0"]
             /\ UNCHANGED << leaf, budget, running, nodes, abortSeen, 
-                            wroteDirty, tt, ret, bestMove, bestScore, done, 
-                            info, answer, answers, dr, ra, rrem, rm, rsc, rpv, 
-                            rbest, d >>
+                            wroteDirty, unsound, tt, ret, bestMove, bestScore, 
+                            done, info, answer, answers, dr, ra, rrem, rm, rsc, 
+                            rpv, rbest, d >>
 
 r1(self) == /\ pc[self] = "r1"
             /\ sc' = [sc EXCEPT ![self] = 0 - ret]
+            /\ unsound' = (unsound \/ ~Judge(0 - a[self] - 1, 0 - a[self], ret, m[self], dp[self] - 1))
             /\ pc' = [pc EXCEPT ![self] = "r1b"]
             /\ UNCHANGED << leaf, budget, running, nodes, abortSeen, 
                             wroteDirty, tt, ret, bestMove, bestScore, done, 
@@ -536,12 +549,13 @@ r1b(self) == /\ pc[self] = "r1b"
                         /\ UNCHANGED << stack, nd, alpha, beta, dp, a, bb, rem, 
                                         m, sc, pv, bestk >>
              /\ UNCHANGED << leaf, budget, running, nodes, abortSeen, 
-                             wroteDirty, tt, ret, bestMove, bestScore, done, 
-                             info, answer, answers, dr, ra, rrem, rm, rsc, rpv, 
-                             rbest, d >>
+                             wroteDirty, unsound, tt, ret, bestMove, bestScore, 
+                             done, info, answer, answers, dr, ra, rrem, rm, 
+                             rsc, rpv, rbest, d >>
 
 r2(self) == /\ pc[self] = "r2"
             /\ sc' = [sc EXCEPT ![self] = 0 - ret]
+            /\ unsound' = (unsound \/ ~Judge(0 - bb[self], 0 - a[self], ret, m[self], dp[self] - 1))
             /\ pc' = [pc EXCEPT ![self] = "ck"]
             /\ UNCHANGED << leaf, budget, running, nodes, abortSeen, 
                             wroteDirty, tt, ret, bestMove, bestScore, done, 
@@ -551,6 +565,7 @@ r2(self) == /\ pc[self] = "r2"
 
 r3(self) == /\ pc[self] = "r3"
             /\ sc' = [sc EXCEPT ![self] = 0 - ret]
+            /\ unsound' = (unsound \/ ~Judge(0 - bb[self], 0 - a[self], ret, m[self], dp[self] - 1))
             /\ pc' = [pc EXCEPT ![self] = "ck"]
             /\ UNCHANGED << leaf, budget, running, nodes, abortSeen, 
                             wroteDirty, tt, ret, bestMove, bestScore, done, 
@@ -583,9 +598,9 @@ ck(self) == /\ pc[self] = "ck"
                        /\ UNCHANGED << running, abortSeen, ret, stack, nd, 
                                        alpha, beta, dp, a, bb, rem, m, sc, pv, 
                                        bestk >>
-            /\ UNCHANGED << leaf, budget, nodes, wroteDirty, tt, bestMove, 
-                            bestScore, done, info, answer, answers, dr, ra, 
-                            rrem, rm, rsc, rpv, rbest, d >>
+            /\ UNCHANGED << leaf, budget, nodes, wroteDirty, unsound, tt, 
+                            bestMove, bestScore, done, info, answer, answers, 
+                            dr, ra, rrem, rm, rsc, rpv, rbest, d >>
 
 cu(self) == /\ pc[self] = "cu"
             /\ IF sc[self] >= bb[self]
@@ -614,9 +629,9 @@ cu(self) == /\ pc[self] = "cu"
                        /\ pc' = [pc EXCEPT ![self] = "lp"]
                        /\ UNCHANGED << wroteDirty, tt, ret, stack, nd, alpha, 
                                        beta, dp, bb, rem, m, sc >>
-            /\ UNCHANGED << leaf, budget, running, nodes, abortSeen, bestMove, 
-                            bestScore, done, info, answer, answers, dr, ra, 
-                            rrem, rm, rsc, rpv, rbest, d >>
+            /\ UNCHANGED << leaf, budget, running, nodes, abortSeen, unsound, 
+                            bestMove, bestScore, done, info, answer, answers, 
+                            dr, ra, rrem, rm, rsc, rpv, rbest, d >>
 
 st(self) == /\ pc[self] = "st"
             /\ tt' = [tt EXCEPT ![Key(nd[self])] = [score |-> a[self], depth |-> dp[self], bound |-> IF a[self] <= alpha[self] THEN "U" ELSE "E", best |-> bestk[self]]]
@@ -635,9 +650,9 @@ st(self) == /\ pc[self] = "st"
             /\ beta' = [beta EXCEPT ![self] = Head(stack[self]).beta]
             /\ dp' = [dp EXCEPT ![self] = Head(stack[self]).dp]
             /\ stack' = [stack EXCEPT ![self] = Tail(stack[self])]
-            /\ UNCHANGED << leaf, budget, running, nodes, abortSeen, bestMove, 
-                            bestScore, done, info, answer, answers, dr, ra, 
-                            rrem, rm, rsc, rpv, rbest, d >>
+            /\ UNCHANGED << leaf, budget, running, nodes, abortSeen, unsound, 
+                            bestMove, bestScore, done, info, answer, answers, 
+                            dr, ra, rrem, rm, rsc, rpv, rbest, d >>
 
 ab(self) == e0(self) \/ e1(self) \/ e1a(self) \/ e1b(self) \/ e2(self)
                \/ q0(self) \/ q1(self) \/ e3(self) \/ lp(self) \/ lc(self)
@@ -651,9 +666,10 @@ s0(self) == /\ pc[self] = "s0"
             /\ rpv' = [rpv EXCEPT ![self] = FALSE]
             /\ pc' = [pc EXCEPT ![self] = "sl"]
             /\ UNCHANGED << leaf, budget, running, nodes, abortSeen, 
-                            wroteDirty, tt, ret, bestMove, bestScore, done, 
-                            info, answer, answers, stack, nd, alpha, beta, dp, 
-                            a, bb, rem, m, sc, pv, bestk, dr, rm, rsc, d >>
+                            wroteDirty, unsound, tt, ret, bestMove, bestScore, 
+                            done, info, answer, answers, stack, nd, alpha, 
+                            beta, dp, a, bb, rem, m, sc, pv, bestk, dr, rm, 
+                            rsc, d >>
 
 sl(self) == /\ pc[self] = "sl"
             /\ IF rrem[self] # {}
@@ -717,9 +733,9 @@ sl(self) == /\ pc[self] = "sl"
                   ELSE /\ pc' = [pc EXCEPT ![self] = "sf"]
                        /\ UNCHANGED << nodes, stack, nd, alpha, beta, dp, a, 
                                        bb, rem, m, sc, pv, bestk, rrem, rm >>
-            /\ UNCHANGED << leaf, budget, running, abortSeen, wroteDirty, tt, 
-                            ret, bestMove, bestScore, done, info, answer, 
-                            answers, dr, ra, rsc, rpv, rbest, d >>
+            /\ UNCHANGED << leaf, budget, running, abortSeen, wroteDirty, 
+                            unsound, tt, ret, bestMove, bestScore, done, info, 
+                            answer, answers, dr, ra, rsc, rpv, rbest, d >>
 
 sk(self) == /\ pc[self] = "sk"
             /\ IF ~running \/ Exceeded
@@ -744,9 +760,9 @@ sk(self) == /\ pc[self] = "sk"
                   ELSE /\ pc' = [pc EXCEPT ![self] = "su"]
                        /\ UNCHANGED << running, bestMove, bestScore, stack, dr, 
                                        ra, rrem, rm, rsc, rpv, rbest >>
-            /\ UNCHANGED << leaf, budget, nodes, abortSeen, wroteDirty, tt, 
-                            ret, done, info, answer, answers, nd, alpha, beta, 
-                            dp, a, bb, rem, m, sc, pv, bestk, d >>
+            /\ UNCHANGED << leaf, budget, nodes, abortSeen, wroteDirty, 
+                            unsound, tt, ret, done, info, answer, answers, nd, 
+                            alpha, beta, dp, a, bb, rem, m, sc, pv, bestk, d >>
 
 su(self) == /\ pc[self] = "su"
             /\ IF rsc[self] > ra[self]
@@ -757,12 +773,14 @@ su(self) == /\ pc[self] = "su"
                        /\ UNCHANGED << ra, rpv, rbest >>
             /\ pc' = [pc EXCEPT ![self] = "sl"]
             /\ UNCHANGED << leaf, budget, running, nodes, abortSeen, 
-                            wroteDirty, tt, ret, bestMove, bestScore, done, 
-                            info, answer, answers, stack, nd, alpha, beta, dp, 
-                            a, bb, rem, m, sc, pv, bestk, dr, rrem, rm, rsc, d >>
+                            wroteDirty, unsound, tt, ret, bestMove, bestScore, 
+                            done, info, answer, answers, stack, nd, alpha, 
+                            beta, dp, a, bb, rem, m, sc, pv, bestk, dr, rrem, 
+                            rm, rsc, d >>
 
 t1(self) == /\ pc[self] = "t1"
             /\ rsc' = [rsc EXCEPT ![self] = 0 - ret]
+            /\ unsound' = (unsound \/ ~Judge(0 - ra[self] - 1, 0 - ra[self], ret, rm[self], dr[self] - 1))
             /\ IF ra[self] < rsc'[self] /\ rsc'[self] < INF
                   THEN /\ /\ alpha' = [alpha EXCEPT ![self] = -INF]
                           /\ beta' = [beta EXCEPT ![self] = 0 - ra[self]]
@@ -800,6 +818,7 @@ t1(self) == /\ pc[self] = "t1"
 
 t2(self) == /\ pc[self] = "t2"
             /\ rsc' = [rsc EXCEPT ![self] = 0 - ret]
+            /\ unsound' = (unsound \/ ~Judge(-INF, 0 - ra[self], ret, rm[self], dr[self] - 1))
             /\ pc' = [pc EXCEPT ![self] = "sk"]
             /\ UNCHANGED << leaf, budget, running, nodes, abortSeen, 
                             wroteDirty, tt, ret, bestMove, bestScore, done, 
@@ -809,6 +828,7 @@ t2(self) == /\ pc[self] = "t2"
 
 t3(self) == /\ pc[self] = "t3"
             /\ rsc' = [rsc EXCEPT ![self] = 0 - ret]
+            /\ unsound' = (unsound \/ ~Judge(-INF, 0 - ra[self], ret, rm[self], dr[self] - 1))
             /\ pc' = [pc EXCEPT ![self] = "sk"]
             /\ UNCHANGED << leaf, budget, running, nodes, abortSeen, 
                             wroteDirty, tt, ret, bestMove, bestScore, done, 
@@ -839,9 +859,9 @@ sf(self) == /\ pc[self] = "sf"
             /\ rbest' = [rbest EXCEPT ![self] = Head(stack[self]).rbest]
             /\ dr' = [dr EXCEPT ![self] = Head(stack[self]).dr]
             /\ stack' = [stack EXCEPT ![self] = Tail(stack[self])]
-            /\ UNCHANGED << leaf, budget, nodes, abortSeen, ret, info, answer, 
-                            answers, nd, alpha, beta, dp, a, bb, rem, m, sc, 
-                            pv, bestk, d >>
+            /\ UNCHANGED << leaf, budget, nodes, abortSeen, unsound, ret, info, 
+                            answer, answers, nd, alpha, beta, dp, a, bb, rem, 
+                            m, sc, pv, bestk, d >>
 
 root(self) == s0(self) \/ sl(self) \/ sk(self) \/ su(self) \/ t1(self)
                  \/ t2(self) \/ t3(self) \/ sf(self)
@@ -868,9 +888,10 @@ it == /\ pc["searcher"] = "it"
                  /\ pc' = [pc EXCEPT !["searcher"] = "s0"]
             ELSE /\ pc' = [pc EXCEPT !["searcher"] = "fin"]
                  /\ UNCHANGED << stack, dr, ra, rrem, rm, rsc, rpv, rbest >>
-      /\ UNCHANGED << leaf, budget, running, nodes, abortSeen, wroteDirty, tt, 
-                      ret, bestMove, bestScore, done, info, answer, answers, 
-                      nd, alpha, beta, dp, a, bb, rem, m, sc, pv, bestk, d >>
+      /\ UNCHANGED << leaf, budget, running, nodes, abortSeen, wroteDirty, 
+                      unsound, tt, ret, bestMove, bestScore, done, info, 
+                      answer, answers, nd, alpha, beta, dp, a, bb, rem, m, sc, 
+                      pv, bestk, d >>
 
 af == /\ pc["searcher"] = "af"
       /\ IF ~running \/ Exceeded
@@ -879,18 +900,18 @@ af == /\ pc["searcher"] = "af"
             ELSE /\ info' = Append(info, d)
                  /\ d' = d + 1
                  /\ pc' = [pc EXCEPT !["searcher"] = "it"]
-      /\ UNCHANGED << leaf, budget, running, nodes, abortSeen, wroteDirty, tt, 
-                      ret, bestMove, bestScore, done, answer, answers, stack, 
-                      nd, alpha, beta, dp, a, bb, rem, m, sc, pv, bestk, dr, 
-                      ra, rrem, rm, rsc, rpv, rbest >>
+      /\ UNCHANGED << leaf, budget, running, nodes, abortSeen, wroteDirty, 
+                      unsound, tt, ret, bestMove, bestScore, done, answer, 
+                      answers, stack, nd, alpha, beta, dp, a, bb, rem, m, sc, 
+                      pv, bestk, dr, ra, rrem, rm, rsc, rpv, rbest >>
 
 fin == /\ pc["searcher"] = "fin"
        /\ running' = FALSE
        /\ pc' = [pc EXCEPT !["searcher"] = "out"]
-       /\ UNCHANGED << leaf, budget, nodes, abortSeen, wroteDirty, tt, ret, 
-                       bestMove, bestScore, done, info, answer, answers, stack, 
-                       nd, alpha, beta, dp, a, bb, rem, m, sc, pv, bestk, dr, 
-                       ra, rrem, rm, rsc, rpv, rbest, d >>
+       /\ UNCHANGED << leaf, budget, nodes, abortSeen, wroteDirty, unsound, tt, 
+                       ret, bestMove, bestScore, done, info, answer, answers, 
+                       stack, nd, alpha, beta, dp, a, bb, rem, m, sc, pv, 
+                       bestk, dr, ra, rrem, rm, rsc, rpv, rbest, d >>
 
 out == /\ pc["searcher"] = "out"
        /\ IF bestMove # 0
@@ -902,20 +923,20 @@ out == /\ pc["searcher"] = "out"
                         ELSE /\ answer' = -2
                              /\ UNCHANGED answers
        /\ pc' = [pc EXCEPT !["searcher"] = "Done"]
-       /\ UNCHANGED << leaf, budget, running, nodes, abortSeen, wroteDirty, tt, 
-                       ret, bestMove, bestScore, done, info, stack, nd, alpha, 
-                       beta, dp, a, bb, rem, m, sc, pv, bestk, dr, ra, rrem, 
-                       rm, rsc, rpv, rbest, d >>
+       /\ UNCHANGED << leaf, budget, running, nodes, abortSeen, wroteDirty, 
+                       unsound, tt, ret, bestMove, bestScore, done, info, 
+                       stack, nd, alpha, beta, dp, a, bb, rem, m, sc, pv, 
+                       bestk, dr, ra, rrem, rm, rsc, rpv, rbest, d >>
 
 searcher == it \/ af \/ fin \/ out
 
 x0 == /\ pc["stopper"] = "x0"
       /\ running' = FALSE
       /\ pc' = [pc EXCEPT !["stopper"] = "Done"]
-      /\ UNCHANGED << leaf, budget, nodes, abortSeen, wroteDirty, tt, ret, 
-                      bestMove, bestScore, done, info, answer, answers, stack, 
-                      nd, alpha, beta, dp, a, bb, rem, m, sc, pv, bestk, dr, 
-                      ra, rrem, rm, rsc, rpv, rbest, d >>
+      /\ UNCHANGED << leaf, budget, nodes, abortSeen, wroteDirty, unsound, tt, 
+                      ret, bestMove, bestScore, done, info, answer, answers, 
+                      stack, nd, alpha, beta, dp, a, bb, rem, m, sc, pv, bestk, 
+                      dr, ra, rrem, rm, rsc, rpv, rbest, d >>
 
 stopper == x0
 
@@ -945,6 +966,10 @@ ValueExact ==
 
 \* C13 at design level: nothing is written to the cache after an abort-return.
 WritesClean == ~wroteDirty
+
+\* C11 at node level: every child search honours the alpha-beta contract (exact inside the window, a true
+\* bound outside), the same predicate SearchTrace.tla (mode STEP) demands of the real search
+NodeContract == ~unsound
 
 \* every stored entry is true of the un-interrupted game (probes off): Exact = value, Lower <= value <= Upper
 NodeOfKey(k) == k
